@@ -3,9 +3,11 @@
 Correspondence stream `c13` (one engine, request kinds `scale`, `poly`, `elem`, `names`, `Q`, `treatment`, `identity`):
 
 * `scale`  — the real `scale` / `center` / `standardize` as a caller reaches them: arguments written positionally, by
-  keyword or defaulted (also ill-formed lists: `TypeError`), data in every container and storage type (ndarray, list,
+  keyword or defaulted (also ill-formed lists: `TypeError`), every flag / number handed over as the Python object or
+  as a numpy scalar / 0-d array / Python float of every type that holds it (`numpy.bool_` IS a flag:
+  `Model.ScaleEntry.Written`, theorem `numpy_bool_is_flag`), data in every container and storage type (ndarray, list,
   pandas / narwhals Series, `scipy.sparse` matrix with one column — or with 0/2/3: `ValueError`; float64, int64,
-  int32, uint8/16/32/64 and bool holding numbers that need the full width of the type), an explicit `_state` dict threaded through a fitting call and follow-up calls (or `model_matrix` +
+  int32, uint8/16/32/64 and bool holding numbers that need the full width of the type, float32 / float16), an explicit `_state` dict threaded through a fitting call and follow-up calls (or `model_matrix` +
   `model_spec.get_model_matrix` on a pandas frame / arrow table), against `Model.ScaleEntry.call` at `Rat` (binding
   against the signatures regenerated from the live functions, sparse dispatch, then `Model.Scale.run`).  `numpy.sqrt`
   is a parameter of the model: the harness forwards the recorded float `scale` and checks the contract
@@ -36,6 +38,11 @@ Correspondence stream `c13` (one engine, request kinds `scale`, `poly`, `elem`, 
   `a_b`, `_`, the NFKC form …): the key the library keeps the state under is compared, on every data set, with
   `Model.TransformKey.stateKey` (the sanitiser of C15's `Model.PyAlias` + the restoration loop of `stateful_eval`;
   CPython's unparser / `str.isidentifier` / `\\w` enter as data), which is proved not to depend on the other names.
+
+* known findings (generated on every run, reported as KNOWN-FINDING, see `classify`): `extreme` — vectors whose squares
+  leave float64 or whose offset is > 2^40 spreads (C13-F1: IEEE range / rounding is not modelled); `comp` — one call
+  text executed on several vectors inside a comprehension (C13-F2: one shared state entry); `elemrand` on narrow
+  storage (C13-F3: numpy's log / exp loops run in float16 / float32 there).
 
 Oracle (implementation alone): mean≈0 / std≈1 on the fitting data (std about the chosen centre when `center` is
 `False` or a number) whatever container / integer type holds the numbers, follow-up data transformed with the recorded
@@ -70,6 +77,7 @@ REQUIRED_THEOREMS = [
     "entry_sparse",
     "entry_defaults",
     "entry_never_refits",
+    "numpy_bool_is_flag",
     "standardize_unit_std_real",
     "three_term_orthogonal",
     "poly_orthogonal",
@@ -107,10 +115,18 @@ TRUSTED = [
     "numpy yields nan/inf on division by zero without raising; the model reports that outcome as `nonFinite` "
     "(zero variance, ddof = n, fewer distinct values than degree + 1)",
     "numpy.array(data) / data.toarray()[:, 0] turn every container (list, Series, narwhals Series, one-column scipy.sparse "
-    "matrix in csc/csr/coo format; float64, int64, int32, uint8, uint16, uint32, uint64, bool storage) into the vector of "
+    "matrix in csc/csr/coo format; float64, float32, float16, int64, int32, uint8, uint16, uint32, uint64, bool storage) into the vector of "
     "the numbers it holds: the model receives that vector (`Data.dense` / `Data.sparse`), the conversion itself "
     "(and `astype(float64)` of an integer / logical array) is numpy's / scipy's; that the arithmetic is then done on the "
     "numbers and not in the storage type is observed on vectors whose squares / differences / powers leave the type",
+    "the TYPE that carries a written flag / number (Python bool / int / float, numpy bool_ / integer / floating scalar, "
+    "0-d array) enters the model as one of three tags (Model.ScaleEntry.Written: pyBool, npBool, number): that numpy's "
+    "arithmetic with a numeric scalar of any type is the arithmetic of the number it holds is observed (values exact in "
+    "the type), not modelled; an UNSIGNED numpy ddof > n (where numpy's own `n - ddof` wraps around) is not generated - "
+    "the property claims nothing for ddof > n; poly's degree as a float (TypeError from range / numpy.empty) is not generated",
+    "IEEE range and rounding are not modelled: on vectors whose squares leave float64 (|x| > 1e150, < 1e-150) or whose "
+    "common offset exceeds 2^40 spreads the exact model and the float64 code differ - known finding C13-F1, generated "
+    "and reported on every run, not compared",
     "the translator's classification of the TRANSFORMS entries (harness/translate.py `_classify_preloaded`: object "
     "identity for named objects, exact probes for anonymous callables) that Gen/TransformTable.lean records",
     "the dict-valued-data rule of the stateful_transform wrapper is not modelled here (it is C04's); the dict insertion "
@@ -140,9 +156,10 @@ ASSUMPTIONS = [
 RULE = (
     "scale: fn in {scale, center, standardize} (possibly another of the three on each follow-up call) x written "
     "arguments: each of center/scale|rescale/ddof positional, by keyword or defaulted, value in {True, False, number} "
-    "(ddof also as a bool), 10% ill-formed (unknown / foreign keyword, too many positionals, a parameter twice) x "
+    "(ddof also as a bool), each 30% carried by a numpy scalar or 0-d array of any type that holds the value exactly "
+    "(bool_; int8..int64, uint8..uint64; float16/32/64) or a Python float, 10% ill-formed (unknown / foreign keyword, too many positionals, a parameter twice) x "
     "container in {ndarray, list, pandas Series, narwhals Series, scipy.sparse csc/csr/coo with 1 column (a vector) or "
-    "0/2/3 columns (ValueError)} x storage float64/int64/int32/uint8/uint16/uint32/uint64/bool x fitting vector (integers "
+    "0/2/3 columns (ValueError)} x storage float64/float32/float16/int64/int32/uint8/uint16/uint32/uint64/bool x fitting vector (integers "
     "or dyadic rationals, length 2..30, magnitude <= 2^20, occasionally constant; 40% times 2^e, e in -60..60; 12% "
     "integers m*2^e whose squares overflow the integer type they are stored in; 18% unsigned / logical storage with the "
     "top bit of the type in use - anywhere in the range, upper half only, m*2^(w-4), the two ends - and then mostly "
@@ -150,7 +167,7 @@ RULE = (
     "x 0..2 follow-up calls with other data AND other arguments (must be "
     "ignored), optional pre-seeded _state, route direct or through model_matrix/model_spec on a pandas frame or an "
     "arrow table (float or integer / unsigned / bool column, arguments written in the formula); poly: degree 0..6 (also negative, also written True) x raw (also written 0/1) "
-    "x spelling positional/keyword/default x ill-formed calls x container/storage as above (15% unsigned / logical "
+    "x spelling positional/keyword/default (degree / raw 25% carried by a numpy bool_ / integer scalar or 0-d array; raw also a float) x ill-formed calls x container/storage as above (15% unsigned / logical "
     "storage needing the full width, 60% of those raw=True) x NaN rows x follow-ups "
     "(same, lower and too-high degree) incl. vectors with too few distinct values, column names / formula labels; "
     "ref (state kept by the library): transform in "
@@ -174,6 +191,9 @@ RULE = (
     "or nowhere x environment in {materializer (pandas, arrow), LayeredMapping with a layer named data / otherwise, plain "
     "dict, no context}; Treatment: 2..5 string or integer levels x reference unset / a level / no level x with or without "
     "intercept x positional or keyword x pandas/arrow; I: every container, and I(x) through a formula; "
+    "known-finding streams: 12 extreme vectors (k*2^(+-600..1000), 2^50|2^52 + k) through scale/center/standardize/poly "
+    "(C13-F1); 10 comprehensions [f(v) for v in (x, y[, z])] in three spellings (C13-F2); 24 elementwise probes on "
+    "bool/int8/uint8/float16/int16/uint16/float32 storage, direct and through a formula (C13-F3); "
     "non-trivial = fitting happens on a non-constant vector / degree >= 2 / a probe with k != 0 / more than one column / "
     "a reference given; distinct by canonical JSON"
 )
@@ -259,6 +279,79 @@ def rand_arg(rng):
     return fr(Fraction(rng.randint(-12, 12) or 3, rng.choice([1, 2, 4])))
 
 
+# --- HOW a flag / number argument is handed over.  A plain case value is a Python object (`True` / `False`, or a
+# --- "p/q" string: Python int when q = 1, else Python float).  A dict `{"v": value, "as": type, "box": box}` is the
+# --- same value as a Python float (`as = "float"`), a numpy scalar (`as` in NP_ARG_TYPES, `box = "scalar"`) or a
+# --- 0-d array of that type (`box = "zerodim"`): what `numpy.any(...)`, `x.mean()`, `numpy.array(3)` … return.  The
+# --- property quantifies over "all ... center/scale flags and ddof": a flag is a flag whichever boolean type holds it.
+NP_INT_ARG = ["int8", "int16", "int32", "int64", "uint8", "uint16", "uint32", "uint64"]
+NP_FLOAT_ARG = ["float16", "float32", "float64"]
+NP_ARG_TYPES = ["bool_"] + NP_INT_ARG + NP_FLOAT_ARG
+
+
+def arg_value(a):
+    """the value an argument denotes: `True` / `False`, or a "p/q" string (poly: an int) - whatever type carries it"""
+    return a["v"] if isinstance(a, dict) else a
+
+
+def arg_object(a):
+    """the Python / numpy object that is passed for the case value `a`"""
+    if not isinstance(a, dict):
+        return a if isinstance(a, (bool, int)) else _num(a)
+    v = a["v"]
+    num = v if isinstance(v, (bool, int)) else Fraction(v)
+    if a["as"] == "float":
+        return float(num)
+    ty = getattr(numpy, a["as"])
+    obj = ty(num) if isinstance(num, (bool, int)) else (ty(int(num)) if a["as"] in NP_INT_ARG else ty(float(num)))
+    return numpy.array(obj) if a.get("box") == "zerodim" else obj
+
+
+def arg_text(a):
+    """the same object written in a formula (`np` is preloaded), in the unparser's normal form"""
+    if not isinstance(a, dict):
+        return repr(a) if isinstance(a, (bool, int)) else repr(_num(a))
+    v = a["v"]
+    lit = repr(v) if isinstance(v, (bool, int)) else repr(_num(v))
+    if a["as"] == "float":
+        return f"float({lit})"
+    inner = f"np.{a['as']}({lit})"
+    return f"np.array({inner})" if a.get("box") == "zerodim" else inner
+
+
+def typed_forms(v, unsigned_ok=True, floats_ok=True):
+    """every (as, box) that holds the value `v` exactly"""
+    out = []
+    if isinstance(v, bool):
+        return [("bool_", "scalar"), ("bool_", "zerodim")]
+    f = Fraction(v)
+    if f.denominator == 1:
+        for t in NP_INT_ARG:
+            info = numpy.iinfo(t)
+            if info.min <= f.numerator <= info.max and (unsigned_ok or not t.startswith("u")):
+                out += [(t, "scalar"), (t, "zerodim")]
+    for t in NP_FLOAT_ARG if floats_ok else []:
+        with numpy.errstate(all="ignore"):
+            x = getattr(numpy, t)(float(f))
+        if numpy.isfinite(x) and Fraction(float(x)) == f:
+            out += [(t, "scalar"), (t, "zerodim")]
+    if floats_ok and Fraction(float(f)) == f:
+        out.append(("float", "scalar"))
+    return out
+
+
+def maybe_typed(rng, v, p=0.3, unsigned_ok=True, floats_ok=True):
+    """with probability `p` the value `v` carried by a numpy scalar / 0-d array / Python float instead of the plain
+    Python object"""
+    if rng.random() >= p:
+        return v
+    forms = typed_forms(v, unsigned_ok, floats_ok)
+    if not forms:
+        return v
+    t, box = rng.choice(forms)
+    return dict(v=v, **{"as": t}, box=box)
+
+
 # ----------------------------------------------------------------------------- generators
 
 
@@ -319,6 +412,7 @@ def effective(call):
     if b is None:
         return None
     d = dict(DOC_DEFAULTS[fn])
+    b = {k: arg_value(v) for k, v in b.items()}  # a flag is a flag, a number a number, whichever type carries it
     if "center" in b:
         d["center"] = b["center"]
     if "scale" in b or "rescale" in b:
@@ -339,8 +433,11 @@ def rand_written(rng, fn, n, force=None):
         elif rng.random() < 0.75:
             if p == "ddof":
                 vals[p] = rng.choice([fr(0), fr(1), fr(1), fr(2), fr(Fraction(1, 2)), fr(n), fr(n + 1), True, False])
+                # (an unsigned numpy ddof > n would make `n - ddof` wrap around in numpy's own scalar arithmetic; the
+                # property claims nothing for ddof > n, so that corner is left to the signed types)
+                vals[p] = maybe_typed(rng, vals[p], unsigned_ok=vals[p] != fr(n + 1))
             else:
-                vals[p] = rand_arg(rng)
+                vals[p] = maybe_typed(rng, rand_arg(rng))
     npos = 0
     if rng.random() < 0.35:
         while npos < len(params) and params[npos] in vals and rng.random() < 0.7:
@@ -371,6 +468,16 @@ def int_storable(vec, dtype):
     return all(Fraction(v).denominator == 1 and lo <= Fraction(v).numerator <= hi for v in vec)
 
 
+NARROW_FLOATS = ["float32", "float16"]
+
+
+def float_storable(vec, dtype):
+    """every value is exactly a finite number of the narrow floating type"""
+    with numpy.errstate(all="ignore"):
+        arr = numpy.array([fl(v) for v in vec], dtype=dtype)
+    return bool(numpy.all(numpy.isfinite(arr))) and all(Fraction(float(a)) == Fraction(v) for a, v in zip(arr, vec))
+
+
 def boxed(rng, call, vec, allow_sparse=True, dtype=None):
     """choose container and storage type for the vector `vec` of a call (`dtype`: the storage type is given)"""
     if dtype is not None:
@@ -387,6 +494,9 @@ def boxed(rng, call, vec, allow_sparse=True, dtype=None):
         call["cols"] = cols
         return
     dtypes = ["float64", "float64"] + [d for d in INT_TYPES if int_storable(vec, d)]
+    # single / half precision storage is a representation of the numbers as well (statistics taken IN the type lose
+    # digits, and squares leave its range from 2^64 resp. 256 on)
+    dtypes += [d for d in NARROW_FLOATS if float_storable(vec, d)]
     call["dtype"] = rng.choice(dtypes)
 
 
@@ -479,9 +589,9 @@ def gen_scale(rng):
             else:
                 force = None
                 if udtype and fni != "center" and rng.random() < 0.6:
-                    force = dict(center=False if rng.random() < 0.5 else unsigned_center(rng, c["data"]))
+                    force = dict(center=maybe_typed(rng, False if rng.random() < 0.5 else unsigned_center(rng, c["data"])))
                     if rng.random() < 0.7:
-                        force["rescale" if fni == "standardize" else "scale"] = True
+                        force["rescale" if fni == "standardize" else "scale"] = maybe_typed(rng, True)
                 c["pos"], c["kw"] = rand_written(rng, fni, n, force)
         if mag and not udtype and "bad" not in c and not (route == "direct" and int_storable(c["data"], "int64") and rng.random() < 0.3):
             e = mag if (i == 0 or rng.random() < 0.7) else rng.choice(MAG_EXPONENTS + [0])
@@ -503,9 +613,9 @@ def gen_scale(rng):
         n = len(calls[0]["data"])
         force = None
         if ustore and fn != "center" and rng.random() < 0.7:
-            force = dict(center=False if rng.random() < 0.5 else unsigned_center(rng, calls[0]["data"]))
+            force = dict(center=maybe_typed(rng, False if rng.random() < 0.5 else unsigned_center(rng, calls[0]["data"])))
         pos, kw = rand_written(rng, fn, n, force)
-        tame = lambda a: fr(2) if a in (fr(n), fr(n + 1)) else a  # noqa: E731  (all-NaN columns are dropped rows)
+        tame = lambda a: fr(2) if arg_value(a) in (fr(n), fr(n + 1)) else a  # noqa: E731  (all-NaN columns are dropped rows)
         pos = [tame(a) for a in pos]
         kw = [[k, tame(a)] for k, a in kw]
         for cc in calls:
@@ -513,6 +623,8 @@ def gen_scale(rng):
     if route == "formula":
         case["frame"] = rng.choice(["pandas", "pandas", "arrow"])
         fits = [d for d in INT_TYPES if all(int_storable(cc["data"], d) for cc in calls)]
+        fits += [d for d in NARROW_FLOATS if all(float_storable(cc["data"], d) for cc in calls)
+                 and (d != "float16" or case["frame"] == "pandas")]
         if ustore:
             case["dtype"] = ustore
         elif fits and rng.random() < 0.5:
@@ -555,8 +667,9 @@ def written_poly(call):
 def rand_poly_written(rng, degree, raw):
     """one of the spellings of `poly(x, degree, raw)`: positional / keyword / default (degree = 1, raw = False),
     `raw` also as the integers 0 / 1, `degree = 1` also as `True`"""
-    rawv = rng.choice([raw, raw, int(raw)])
-    degv = True if (degree == 1 and rng.random() < 0.1) else degree
+    rawv = maybe_typed(rng, rng.choice([raw, raw, int(raw)]), 0.25)
+    # (a float is no degree: `range` / `numpy.empty` refuse it; `raw` is only tested for truth)
+    degv = maybe_typed(rng, True if (degree == 1 and rng.random() < 0.1) else degree, 0.25, floats_ok=False)
     r = rng.random()
     if degree == 1 and not raw and r < 0.2:
         return [], []
@@ -665,6 +778,9 @@ REF_POSITIONS = ["top", "I", "braces", "mul1"]
 REF_ENTRIES = ["mm_spec", "mm_spec", "formula_obj", "sugar_frame", "stateful_eval"]
 
 
+REF_CONTEXT_NAMES = {"T", "PC", "formulaic", "ns", "H", "D", "L", "get"} | {f"my_{k}" for k in STATEFUL}
+
+
 def ref_callee(form, fn):
     """the text of the callee for transform `fn` in reference form `form` (names are bound by `_ref_context`)"""
     mod, dotted = ("PC", "formulaic.transforms.patsy_compat") if fn == "standardize" else ("T", "formulaic.transforms")
@@ -683,8 +799,8 @@ def ref_callee(form, fn):
 
 
 def _lit(a):
-    """python literal for a flag / exact number"""
-    return repr(a) if isinstance(a, bool) else repr(_num(a))
+    """python text for a flag / exact number (a typed argument: the numpy constructor, `np` being preloaded)"""
+    return arg_text(a)
 
 
 # --- the NAME of the data column the transform is applied to.  Anything but a plain identifier is written between
@@ -771,7 +887,9 @@ def gen_ref(rng):
     # stand-ins in the fitting and / or the follow-up data sets
     if rng.random() < 0.45:
         where["var"] = var = rng.choice(VAR_NAMES[rng.choice(["keyword", "keyword", "unstable", "unstable", "nonident", "nonident", "plain"])])
-        like = alias_like(var)
+        # (an unused column must not be called like one of the context objects the callee is reached through: data
+        # columns shadow the context, `H.center` would then be an attribute of the column)
+        like = [nm for nm in alias_like(var) if nm not in REF_CONTEXT_NAMES]
         where["extra"] = [rng.sample(like, rng.choice([1, 1, 2, 3])) if rng.random() < (0.3 if i == 0 else 0.85) else []
                           for i in range(1 + nfollow)]
     # the column's storage type: 20% unsigned / logical, holding numbers that need the full width
@@ -799,11 +917,11 @@ def gen_ref(rng):
     args = {}
     if fn != "center":  # the same written arguments are evaluated again on every follow-up data set
         if store and rng.random() < 0.6:
-            args["center"] = False if rng.random() < 0.5 else unsigned_center(rng, first)
+            args["center"] = maybe_typed(rng, False if rng.random() < 0.5 else unsigned_center(rng, first), 0.2)
         elif rng.random() < 0.5:
-            args["center"] = rand_arg(rng)
+            args["center"] = maybe_typed(rng, rand_arg(rng), 0.2)
         if rng.random() < 0.5:
-            args["scale"] = rand_arg(rng)
+            args["scale"] = maybe_typed(rng, rand_arg(rng), 0.2)
         if rng.random() < 0.5:
             args["ddof"] = fr(rng.choice([0, 1, 1, 2, Fraction(1, 2), len(first)]))
     # written positionally when the written arguments are a prefix of the parameter list
@@ -830,7 +948,142 @@ def gen_ref(rng):
     return dict(kind="scale", state={}, calls=calls, mag=mag, **where)
 
 
+# --- "any magnitude", taken literally: finite float64 vectors whose SQUARES leave the range of float64 (|x| > 1e150:
+# --- overflow, |x| < 1e-150: underflow to 0) and vectors with a common offset more than 2^40 times their spread (a
+# --- single-pass mean / alpha_0 is then rounded by more than the deviations it is subtracted from).  The model computes
+# --- in exact rationals and the oracle asks for what the property states; formulaic computes naively in float64
+# --- (known finding C13-F1, see `extreme_data` / `classify`).  A few cases per run, so that the finding stays visible.
+F1_BIG, F1_SMALL, F1_OFFSET = 1e150, 1e-150, 2.0 ** 40
+
+
+def gen_extreme(rng):
+    how = rng.choice(["huge", "tiny", "offset"])
+    n = rng.choice([3, 4, 6, 7, 12, 20])
+
+    def vec():
+        if how == "offset":
+            base = 2 ** rng.choice([50, 52])
+            ks = rng.sample(range(0, 40), n) if rng.random() < 0.5 else list(range(n))
+            return [fr(base + k) for k in ks]
+        e = rng.choice([600, 700, 1000]) * (1 if how == "huge" else -1)
+        ks = rng.sample(range(1, 33), n)
+        return [fr(Fraction(k) * Fraction(2) ** e) for k in ks]
+
+    if rng.random() < 0.5:
+        fn = rng.choice(["scale", "scale", "standardize", "center"])
+        calls = []
+        for _ in range(rng.choice([1, 2])):
+            call = dict(fn=fn, data=vec(), pos=[], kw=[], container="ndarray", dtype="float64")
+            if fn != "center" and rng.random() < 0.4:
+                call["kw"] = [["ddof", rng.choice([fr(0), fr(1), fr(2)])]]
+            calls.append(call)
+        return dict(kind="scale", route="direct", state={}, calls=calls, mag=0, extreme=how)
+    degree = rng.choice([1, 2, 2, 3])
+    calls = []
+    for _ in range(rng.choice([1, 2])):
+        calls.append(dict(x=vec(), degree=degree, raw=False, pos=[degree], kw=[], container="ndarray", dtype="float64"))
+    return dict(kind="poly", calls=calls, extreme=how)
+
+
+def extreme_data(c):
+    """the signature of C13-F1, read off the case alone: some data vector of the history has max|x| > 1e150, or
+    0 < max|x| < 1e-150, or max|x| > 2^40 * (max x - min x) > 0"""
+    if c.get("kind") not in ("scale", "poly"):
+        return None
+    for call in c.get("calls", []):
+        xs = [fl(v) for v in (call.get("x") if c["kind"] == "poly" else call.get("data")) or [] if v is not None]
+        if not xs:
+            continue
+        mag, spread = max(abs(v) for v in xs), max(xs) - min(xs)
+        if mag > F1_BIG:
+            return "huge"
+        if 0 < mag < F1_SMALL:
+            return "tiny"
+        if spread > 0 and mag > F1_OFFSET * spread:
+            return "offset"
+    return None
+
+
+# --- ONE textual call executed SEVERAL times: `np.column_stack([scale(v) for v in (x, y)])`.  Each execution is fitted
+# --- on the vector it is handed, so each result must meet the contract on that vector (known finding C13-F2: the
+# --- library keeps one state entry per call TEXT, the executions after the first re-apply the first one's statistics).
+COMP_FORMS = ["np.column_stack([{call} for v in ({vars})])", "np.stack([{call} for v in ({vars})], axis=1)",
+              "np.column_stack(list(map(lambda v: {call}, [{vars}])))"]
+
+
+def gen_comp(rng):
+    fn = rng.choice(["scale", "scale", "center", "standardize"])
+    n = rng.choice([3, 4, 6, 12])
+    vecs = []
+    while len(vecs) < rng.choice([2, 2, 3]):
+        v = rand_vector(rng, n=n, kind=rng.choice(["small", "big", "dyadic", "offset"]))
+        if len(set(v)) > 1:
+            vecs.append(v)
+    return dict(kind="comp", fn=fn, vectors=vecs, form=rng.randrange(len(COMP_FORMS)))
+
+
+def comp_expr(c):
+    names = ["x", "y", "z"][: len(c["vectors"])]
+    return COMP_FORMS[c["form"]].format(call=f"{c['fn']}(v)", vars=", ".join(names))
+
+
+def impl_comp(c):
+    from formulaic import model_matrix
+
+    names = ["x", "y", "z"][: len(c["vectors"])]
+    df = pandas.DataFrame({nm: [fl(t) for t in v] for nm, v in zip(names, c["vectors"])})
+    with numpy.errstate(all="ignore"):
+        mm = model_matrix("0 + " + comp_expr(c), df, na_action="ignore")
+    arr = as_matrix(mm)
+    tstate = mm.model_spec.transform_state
+    entry = dict(tstate[f"{c['fn']}(v)"]) if f"{c['fn']}(v)" in tstate else (dict(next(iter(tstate.values()))) if len(tstate) == 1 else {})
+    return dict(cols=[[jf(t) for t in arr[:, j]] for j in range(arr.shape[1])], nstate=len(tstate), state=_scale_state_obs(entry))
+
+
+def comp_first(c, o):
+    """the first execution as a case / observation of kind `scale` (it is the one the recorded state belongs to)"""
+    pc = dict(kind="scale", route="formula", state={}, mag=0,
+              calls=[dict(fn=c["fn"], data=c["vectors"][0], pos=[], kw=[])])
+    po = dict(o) if "harness_exception" in o else dict(calls=[dict(out=(o.get("cols") or [[]])[0], state=o.get("state", {}))])
+    return pc, po
+
+
+def comp_failures(c, o):
+    """[(execution index, reason)]: executions whose result does not meet the contract on the vector it was fitted on"""
+    out = []
+    cols = o.get("cols") or []
+    if len(cols) != len(c["vectors"]):
+        return [(0, f"{len(cols)} columns for {len(c['vectors'])} executions")]
+    ddof = _ddof_value(DOC_DEFAULTS[c["fn"]]["ddof"])
+    for j, (v, col) in enumerate(zip(c["vectors"], cols)):
+        x = _arr([fl(t) for t in v])
+        if any(isinstance(t, str) for t in col) or len(col) != len(v):
+            out.append((j, "nan/inf on a non-constant finite vector"))
+            continue
+        y = _arr(col)
+        mag = float(numpy.max(numpy.abs(x)))
+        if c["fn"] == "center":
+            if abs(y.mean()) > 1e-9 * mag or float(numpy.max(numpy.abs(y - (x - x.mean())))) > 1e-9 * mag:
+                out.append((j, f"mean of the centred vector is {y.mean()!r}, not 0"))
+            continue
+        sd = math.sqrt(float(((y - y.mean()) ** 2).sum()) / (len(x) - ddof))
+        if abs(y.mean()) > 1e-9 or abs(sd - 1.0) > 1e-9:
+            out.append((j, f"mean {y.mean()!r} and standard deviation (ddof={ddof}) {sd!r}, not 0 and 1"))
+    return out
+
+
+def oracle_comp(c, o):
+    bad = comp_failures(c, o)
+    if not bad:
+        return None
+    j, reason = bad[0]
+    return (f"{comp_expr(c)}: execution {j} of the call {c['fn']}(v) (on the vector {['x', 'y', 'z'][j]} = "
+            f"{[fl(t) for t in c['vectors'][j]][:4]}…) gives {reason}; {o.get('nstate')} state entr(y/ies) recorded for "
+            f"{len(c['vectors'])} executions")
+
+
 INT_RANGE = {"int64": (-(2 ** 63), 2 ** 63 - 1), "int32": (-(2 ** 31), 2 ** 31 - 1),
+             "int16": (-(2 ** 15), 2 ** 15 - 1), "int8": (-(2 ** 7), 2 ** 7 - 1),
              "uint8": (0, 2 ** 8 - 1), "uint16": (0, 2 ** 16 - 1), "uint32": (0, 2 ** 32 - 1), "uint64": (0, 2 ** 64 - 1),
              "bool": (0, 1)}
 # the storage types whose arithmetic is modular / logical rather than that of the numbers they hold
@@ -902,6 +1155,61 @@ def gen_elem_rand(rng):
     return c
 
 
+# --- NARROW storage: numpy's log / exp ufuncs pick their loop by the input type - float16 for bool / int8 / uint8 /
+# --- float16 columns, float32 for int16 / uint16 / float32 - so the preloaded names compute the function their name
+# --- denotes to 3 resp. 7 digits only, and overflow at 6.5e4 resp. 3.4e38 (known finding C13-F3, see `classify`).
+NARROW = {"bool": "float16", "int8": "float16", "uint8": "float16", "float16": "float16",
+          "int16": "float32", "uint16": "float32", "float32": "float32"}
+
+
+def gen_elem_narrow(rng):
+    name = rng.choice(ELEM_NAMES)
+    dtype = rng.choice(sorted(NARROW))
+    if dtype.startswith("float"):
+        x = Fraction(rng.randint(1, 200), 4) if name.startswith("log") else Fraction(rng.randint(-40, 60), 4)
+    elif dtype == "bool":
+        x = Fraction(1)
+    else:
+        lo, hi = INT_RANGE[dtype]
+        x = Fraction(rng.randint(1, min(hi, 1000))) if name.startswith("log") else Fraction(rng.randint(max(lo, -10), 40))
+    c = dict(kind="elemrand", name=name, x=fr(x), dtype=dtype, via=rng.choice(["direct", "formula"]) if dtype != "bool" else "direct")
+    if c["via"] == "direct":
+        c["box"] = rng.choice(["ndarray", "series", "npscalar"])
+    else:
+        c["frame"] = "pandas"
+    return c
+
+
+def narrow_loop_result(c, o):
+    """is every observed value of the case what the named function gives when it is evaluated in the narrow floating
+    type numpy selects for the storage type (to 4 units of that type's precision; inf / 0 beyond its range)?"""
+    kind = NARROW.get(c.get("dtype"))
+    if kind is None or c.get("kind") != "elemrand":
+        return False
+    info = numpy.finfo(kind)
+    want = REAL[c["name"]](fl(c["x"]))
+    seen = False
+    for via in ("direct", "formula"):
+        if via not in o:
+            continue
+        v = o[via]
+        if isinstance(v, str) and " in a" in v:  # "<value> in a <box>, <value> in an ndarray"
+            return False
+        if isinstance(v, str) and v.startswith("raised"):
+            return False
+        v = float(v)
+        seen = True
+        if abs(want) > float(info.max):
+            ok = math.isinf(v)
+        elif abs(want) < float(info.smallest_subnormal):
+            ok = v == 0.0
+        else:
+            ok = math.isfinite(v) and abs(v - want) <= 4 * float(info.eps) * max(abs(want), float(info.tiny))
+        if not ok:
+            return False
+    return seen
+
+
 # --- the remaining shims of patsy_compat.py / identity.py: Q (a data column by its name), Treatment (treatment coding
 # --- with a reference level), I (the identity)
 Q_NAMES = ["x", "y", "my var", "a.b", "log", "scale", "np", "1x", "x y z", "data", "context", "\u00e9t\u00e9", "a-b", "_state", "x ", "(x)"]
@@ -965,6 +1273,12 @@ def cases(rng, tier):
         yield gen_q(rng)
         yield gen_treatment(rng)
         yield gen_identity(rng)
+    for _ in range({"quick": 12, "thorough": 60, "search": 4}[tier]):
+        yield gen_extreme(rng)
+    for _ in range({"quick": 10, "thorough": 60, "search": 4}[tier]):
+        yield gen_comp(rng)
+    for _ in range({"quick": 24, "thorough": 200, "search": 8}[tier]):
+        yield gen_elem_narrow(rng)
 
 
 def describe(c):
@@ -976,6 +1290,10 @@ def describe(c):
         return f"Treatment:{'unset' if c['reference'] is None else 'level' if c['reference'] in c['levels'] else 'outsider'}:icpt={int(c['intercept'])}"
     if c["kind"] == "identity":
         return f"I:{c['box']}"
+    if c.get("extreme"):
+        return f"{c['kind']}:extreme:{c['extreme']}"
+    if c["kind"] == "comp":
+        return f"comp:{c['fn']}:k={len(c['vectors'])}:form={c['form']}"
     if c.get("route") == "ref":
         fn = "poly" if c["kind"] == "poly" else c["calls"][0]["fn"]
         tag = ""
@@ -991,6 +1309,8 @@ def describe(c):
         store = c.get("dtype") or c0.get("dtype")
         if store in UNSIGNED or store == "bool":
             return f"scale:{c0['fn']}:{c['route']}:{store}:centre={'mean' if (effective(c0) or {}).get('center') is True else 'other'}"
+        if store in NARROW_FLOATS:
+            return f"scale:{c0['fn']}:{c['route']}:{store}:mag={'tiny' if m < 0 else 'huge' if m > 0 else 'unit'}"
         return f"scale:{c0['fn']}:{c['route']}:calls={len(c['calls'])}:pre={len(c['state'])}:mag={'tiny' if m < 0 else 'huge' if m > 0 else 'unit'}"
     if c["kind"] == "poly":
         c0 = c["calls"][0]
@@ -1023,7 +1343,7 @@ def nontrivial(c):
 
 
 def _py_arg(a):
-    return a if isinstance(a, bool) else _num(a)
+    return arg_object(a)
 
 
 def _num(a):
@@ -1254,16 +1574,16 @@ def make_container(call, vec, nan_ok=False):
         dense = numpy.array([[fl(v) for v in col] for col in cols], dtype=float).T if cols else numpy.zeros((n, 0))
         return {"csc": sp.csc_matrix, "csr": sp.csr_matrix, "coo": sp.coo_matrix}[call.get("format", "csc")](dense.reshape(n, len(cols)))
     dtype = call.get("dtype", "float64")
-    if dtype == "float64":
+    if dtype.startswith("float"):
         vals = [float("nan") if v is None else fl(v) for v in vec]
-        arr = numpy.array(vals, dtype=numpy.float64)
+        arr = numpy.array(vals, dtype=dtype)
     else:
         vals = [Fraction(v).numerator for v in vec]
         arr = numpy.array(vals, dtype=dtype)
     if kind == "list":
         # a list keeps the storage type only through its elements: numpy scalars for the unsigned / logical types
         # (Python integers would be read back as int64 / float64)
-        return list(arr) if dtype in UNSIGNED or dtype == "bool" else vals
+        return list(arr) if dtype in UNSIGNED or dtype == "bool" or dtype in NARROW_FLOATS else vals
     if kind == "series":
         return pandas.Series(arr, index=[3 * i + 2 for i in range(len(vals))])
     if kind == "nwseries":
@@ -1301,7 +1621,7 @@ def make_frame(c, vec):
     """the data set of a formula-route case: a pandas frame or an arrow table (narwhals materializer), the column
     stored as float64 or as the integer type the case names"""
     dtype = c.get("dtype", "float64")
-    vals = [fl(v) for v in vec] if dtype == "float64" else [Fraction(v).numerator for v in vec]
+    vals = [fl(v) for v in vec] if dtype.startswith("float") else [Fraction(v).numerator for v in vec]
     col = numpy.array(vals, dtype=dtype)
     if c.get("frame") == "arrow":
         import pyarrow
@@ -1358,7 +1678,7 @@ def impl_poly(c):
         try:
             x = make_container(call, call["x"])
             with numpy.errstate(all="ignore"):
-                out = TRANSFORMS["poly"](x, *pos, _state=st, **dict(kws))
+                out = TRANSFORMS["poly"](x, *[arg_object(a) for a in pos], _state=st, **{k: arg_object(v) for k, v in kws})
         except Exception as e:
             res.append(dict(error=type(e).__name__))
             break
@@ -1376,8 +1696,10 @@ def impl_poly(c):
 
 def _elem_array(x, dtype, n=1):
     """the probe value stored as `dtype` (x is a Fraction; integer types get the exact integer)"""
-    if dtype == "float64":
-        return numpy.array([float(x)] * n, dtype=numpy.float64)
+    if dtype.startswith("float"):
+        arr = numpy.array([float(x)] * n, dtype=dtype)
+        assert Fraction(float(arr[0])) == x
+        return arr
     assert x.denominator == 1 and INT_RANGE[dtype][0] <= x.numerator <= INT_RANGE[dtype][1]
     return numpy.array([x.numerator] * n, dtype=dtype)
 
@@ -1578,6 +1900,8 @@ def impl(c):
         return impl_treatment(c)
     if c["kind"] == "identity":
         return impl_identity(c)
+    if c["kind"] == "comp":
+        return impl_comp(c)
     if c["kind"] == "scale":
         return impl_scale(c)
     if c["kind"] == "poly":
@@ -1612,6 +1936,8 @@ def impl(c):
 def request(c, o):
     if c["kind"] == "names":
         return dict(op="names")
+    if c["kind"] == "comp":
+        return request(*comp_first(c, o))
     if c["kind"] == "Q":
         return dict(op="Q", variable=c["variable"], env=c["env"], layer=c.get("layer", ""),
                     data=[[nm, "data:" + nm] for nm in c["columns"]],
@@ -1863,6 +2189,9 @@ def agree(c, o, m):
         if not o.get("same") or o.get("values") != want:
             return f"I(x): same object {o.get('same')}, column {o.get('values')} vs model {want}"
         return None
+    if c["kind"] == "comp":  # the first execution is the fit the recorded state belongs to; the others: oracle
+        pc, po = comp_first(c, o)
+        return agree_scale(pc, po, m)
     if c["kind"] == "scale":
         return agree_scale(c, o, m) or agree_ref_keys(c, o, m)
     if c["kind"] == "poly":
@@ -2001,6 +2330,9 @@ def oracle_scale(c, o):
         sd = math.sqrt(float(((y - y.mean()) ** 2).sum()) / (n - ddof))
         if abs(sd - 1.0) > 1e-9:
             return f"{fn}: standard deviation (ddof={ddof}) of the standardised fitting data is {sd!r}, not 1 ({how})"
+    if fresh and e0["scale"] is False and _has_nonfinite(a0) and mag < 1e150:
+        return (f"{fn}: with scale=False the data must only be shifted by the centre, but finite data gave nan/inf: "
+                f"{a0['out'][:4]} for {x0.tolist()[:4]} ({how}, arguments {written(c0)})")
     if fresh and e0["scale"] is False and not _has_nonfinite(a0):
         # scale=False: the data are only shifted by the chosen centre (their mean, 0, or the number given)
         y = _arr(a0["out"])
@@ -2099,7 +2431,7 @@ def _same_polynomials(c, calls, d, x, Q):
 
 def _bool_degree(call):
     pos, kws = written_poly(call)
-    return (bool(pos) and isinstance(pos[0], bool)) or any(k == "degree" and isinstance(v, bool) for k, v in kws)
+    return (bool(pos) and isinstance(arg_value(pos[0]), bool)) or any(k == "degree" and isinstance(arg_value(v), bool) for k, v in kws)
 
 
 def oracle_poly(c, o):
@@ -2240,6 +2572,8 @@ def oracle(c, o):
         return f"elementwise functions not preloaded into formulas: {missing}" if missing else None
     if c["kind"] == "scale":
         return oracle_scale(c, o)
+    if c["kind"] == "comp":
+        return oracle_comp(c, o)
     if c["kind"] == "poly":
         return oracle_poly(c, o)
     if c["kind"] == "Q":
@@ -2271,17 +2605,33 @@ def oracle(c, o):
 
 
 def classify(c, o, why):
+    # C13-F1: naive float64 arithmetic on extreme magnitudes / large common offsets (IEEE range and rounding are not
+    # modelled: the model is exact, the oracle states the property).  The signature is a property of the DATA alone.
+    if extreme_data(c):
+        return "C13-F1"
+    # C13-F2: one call text executed on several vectors shares one state entry: the FIRST execution meets the contract
+    # (and agrees with the model), a later one does not
+    if c.get("kind") == "comp" and len(c["vectors"]) >= 2 and isinstance(o, dict) and "cols" in o:
+        bad = [j for j, _ in comp_failures(c, o)]
+        if bad and 0 not in bad and o.get("nstate") == 1:
+            return "C13-F2"
+    # C13-F3: the preloaded log / exp ufuncs on a narrow storage type: the observed value is the named function, but
+    # evaluated in float16 / float32
+    if isinstance(o, dict) and narrow_loop_result(c, o):
+        return "C13-F3"
     return None
 
 
 LEVEL_TEXT = (
-    "Proof: 37 Lean theorems (Props/C13.lean) about the executable models, stated for ALL vectors, lengths, flags, "
+    "Proof: 38 Lean theorems (Props/C13.lean) about the executable models, stated for ALL vectors, lengths, flags, "
     "ddof, degrees, states and follow-up vectors over an arbitrary field (and over the reals with Real.sqrt). "
     "scale/center/standardize: zero mean, unit standard deviation (about the mean, or about the chosen centre for "
     "center=False/number), recorded statistics re-applied and never refitted - also through the entry points as a "
     "caller reaches them (Model/ScaleEntry.lean: argument binding against the LIVE signatures incl. the defaults "
     "ddof=1 / ddof=0 / keyword `rescale`, center = scale(scale=False), the singledispatch branch for scipy.sparse "
-    "with its ValueError), with any of the three names on the follow-up call. The key under which the library keeps "
+    "with its ValueError), with any of the three names on the follow-up call; a flag handed over as a numpy boolean "
+    "(numpy.bool_, 0-d boolean array) gives exactly the result of the Python bool, through every entry point and in "
+    "every position (numpy_bool_is_flag). The key under which the library keeps "
     "the statistics of `f(`name`, ...)` is the call as the user wrote it (name back-quoted unless Python reads it back "
     "unchanged) for ANY column name and ANY other names in the data / context - the stand-in identifier does depend on "
     "them, the key does not (Model/TransformKey.lean over C15's sanitiser model; state_key_of_call, "
@@ -2308,5 +2658,8 @@ LEVEL_NOTE = (
     "Partial: libm accuracy of exp/log/sqrt and IEEE rounding are observed (exact probes, 1e-12 / 1e-9 tolerances), "
     "not proved; numpy's nan/inf outcomes are collapsed to one `nonFinite` outcome in the model; the conversion of a "
     "container to the vector of its numbers (numpy.array, toarray) is numpy's and enters the model as that vector; "
-    "matrix-valued (2-D) input to scale and dict-valued data are outside this property's model."
+    "matrix-valued (2-D) input to scale and dict-valued data are outside this property's model. Known findings, "
+    "generated and reported on every run: C13-F1 (extreme magnitudes / large common offsets: float64 range and rounding, "
+    "not modelled), C13-F2 (one call text executed on several vectors shares one state entry), C13-F3 (log/exp on "
+    "narrow storage types run in float16/float32)."
 )
